@@ -37,6 +37,29 @@ fn id(s: &str) -> Ident {
     Ident::new(s, Span::call_site())
 }
 
+/// N23: `<int literal> << <int literal>` folded to its value (keeps the left literal's type suffix)
+pub struct FoldShl(pub usize);
+impl VisitMut for FoldShl {
+    fn visit_expr_mut(&mut self, e: &mut Expr) {
+        visit_mut::visit_expr_mut(self, e);
+        if let Expr::Binary(b) = e {
+            if matches!(b.op, syn::BinOp::Shl(_)) {
+                if let (Expr::Lit(syn::ExprLit { lit: syn::Lit::Int(l), .. }), Expr::Lit(syn::ExprLit { lit: syn::Lit::Int(r), .. })) = (strip_paren(&b.left), strip_paren(&b.right)) {
+                    if let (Ok(lv), Ok(rv)) = (l.base10_parse::<u128>(), r.base10_parse::<u32>()) {
+                        if let Some(v) = lv.checked_shl(rv) {
+                            if rv < 127 && (v >> rv) == lv {
+                                let lit = syn::LitInt::new(&format!("{}{}", v, l.suffix()), l.span());
+                                *e = Expr::Lit(syn::ExprLit { attrs: vec![], lit: syn::Lit::Int(lit) });
+                                self.0 += 1;
+                            }
+                        }
+                    }
+                }
+            }
+        }
+    }
+}
+
 pub fn strip_item_attrs(it: &mut syn::Item) {
     struct S;
     impl VisitMut for S {
@@ -150,6 +173,8 @@ fn strip_paren(e: &Expr) -> &Expr {
 enum Src {
     Range { lo: Expr, hi: Expr },
     Index { base: Expr, by_ref: bool },
+    /// `xs.iter_mut()`: the binder is `&mut xs[i]`; handled by substituting `*binder` with `xs[i]`
+    IndexMut { base: Expr },
     /// `xs.chunks(n)`: chunk i is xs[i*n .. min(i*n+n, len)], ceil(len/n) chunks (std docs)
     Chunks { base: Expr, size: Expr },
 }
@@ -186,6 +211,7 @@ fn parse_iter(e: &Expr, bare_ok: bool) -> Option<Iter> {
             let name = m.method.to_string();
             let args: Vec<&Expr> = m.args.iter().collect();
             match (name.as_str(), args.len()) {
+                ("iter_mut", 0) => Some(Iter { src: Src::IndexMut { base: (*m.receiver).clone() }, adapters: vec![] }),
                 ("chunks", 1) => Some(Iter { src: Src::Chunks { base: (*m.receiver).clone(), size: args[0].clone() }, adapters: vec![] }),
                 ("iter", 0) => Some(Iter { src: Src::Index { base: (*m.receiver).clone(), by_ref: true }, adapters: vec![] }),
                 ("into_iter", 0) => Some(Iter { src: Src::Index { base: (*m.receiver).clone(), by_ref: false }, adapters: vec![] }),
@@ -229,11 +255,18 @@ fn parse_iter(e: &Expr, bare_ok: bool) -> Option<Iter> {
                 }
                 ("map", 1) => {
                     let mut it = parse_iter(&m.receiver, false)?;
-                    if let Expr::Closure(c) = strip_paren(args[0]) {
-                        it.adapters.push(Adapter::Map(c.clone()));
-                        Some(it)
-                    } else {
-                        None
+                    match strip_paren(args[0]) {
+                        Expr::Closure(c) => {
+                            it.adapters.push(Adapter::Map(c.clone()));
+                            Some(it)
+                        }
+                        // `.map(f)` with a function path is `.map(|x| f(x))`
+                        Expr::Path(p) => {
+                            let c: syn::ExprClosure = parse_quote!(|__x| #p(__x));
+                            it.adapters.push(Adapter::Map(c));
+                            Some(it)
+                        }
+                        _ => None,
                     }
                 }
                 _ if bare_ok => Some(Iter { src: Src::Index { base: e.clone(), by_ref: false }, adapters: vec![] }),
@@ -317,6 +350,11 @@ impl Norm {
     }
 
     pub fn run_fn(&mut self, sig: &mut syn::Signature, block: &mut Block, named_ret: bool) {
+        {
+            let mut f = FoldShl(0);
+            f.visit_block_mut(block);
+            if f.0 > 0 { self.rules.push(RuleApp { rule: "N23".into(), line: 0, note: format!("{} literal shift(s) folded", f.0) }); }
+        }
         {
             let mut rw = Rewriter { n: self };
             rw.visit_block_mut(block);
@@ -414,6 +452,41 @@ impl Norm {
         }
         if let (Src::Range { .. }, []) = (&it.src, ads.as_slice()) {
             return None; // plain range: native
+        }
+        // N2m: `for [(i,] v[)] in xs.iter_mut()[.enumerate()]`: `*v` stands for `xs[i]` (the only use the rule accepts)
+        if let Src::IndexMut { base } = &it.src {
+            if !is_simple(base) { return None; }
+            let enumerate = match it.adapters.as_slice() { [] => false, [Adapter::Enumerate] => true, _ => return None };
+            let idx = self.fresh("i");
+            let (ipat, vname): (Option<Pat>, Ident) = match (enumerate, pat) {
+                (false, Pat::Ident(pi)) => (None, pi.ident.clone()),
+                (true, Pat::Tuple(pt)) if pt.elems.len() == 2 => match &pt.elems[1] { Pat::Ident(pi) => (Some(pt.elems[0].clone()), pi.ident.clone()), _ => return None },
+                _ => return None,
+            };
+            struct Sub { v: Ident, repl: Expr, bad: bool }
+            impl VisitMut for Sub {
+                fn visit_expr_mut(&mut self, e: &mut Expr) {
+                    if let Expr::Unary(u) = e {
+                        if matches!(u.op, syn::UnOp::Deref(_)) {
+                            if let Expr::Path(p) = &*u.expr { if p.path.is_ident(&self.v) { *e = self.repl.clone(); return; } }
+                        }
+                    }
+                    if let Expr::Path(p) = e { if p.path.is_ident(&self.v) { self.bad = true; } }
+                    visit_mut::visit_expr_mut(self, e);
+                }
+            }
+            let mut sub = Sub { v: vname, repl: parse_quote!(#base[#idx]), bad: false };
+            let mut body = body;
+            for st in body.iter_mut() { sub.visit_stmt_mut(st); }
+            if sub.bad { self.errors.push("iter_mut binder used other than as `*binder`".into()); return None; }
+            self.rule("N2", sp, "for over iter_mut -> index loop, `*v` -> xs[i]");
+            let bind: Vec<Stmt> = match ipat { Some(ip) => vec![parse_quote!(let #ip = #idx;)], None => vec![] };
+            pre.push(parse_quote!(for #idx in 0..#base.len() {
+                #(#bind)*
+                __vx_loop_body_here!();
+                #(#body)*
+            }));
+            return Some(pre);
         }
         // N2: indexable source with take / enumerate / zip / skip
         let (idx, lo, hi, elem, notes) = self.lower_iter(it, &mut pre)?;
